@@ -41,10 +41,14 @@ type ocCase struct {
 	// FinishUpgrade: after a graceful close with data still buffered the probed candidate sends its upgrade packet:
 	// the switch completes, the buffered packets leave on the new transport, then the session closes
 	FinishUpgrade bool
+	// CloseIn: graceful close: the application says a last word and closes from inside a listener of this event
+	// of the target session (flush | drain | srv.flush | srv.drain) while the sends are going on: Send(bye), then
+	// Close(false). "" = the close is called after the sends, from outside any listener
+	CloseIn string
 }
 
 func (c ocCase) String() string {
-	return fmt.Sprintf("{%+v close=%s target=%d midUpgrade=%v finishUpgrade=%v}", c.Sess, c.Close, c.Target, c.MidUpgrade, c.FinishUpgrade)
+	return fmt.Sprintf("{%+v close=%s target=%d midUpgrade=%v finishUpgrade=%v closeIn=%q}", c.Sess, c.Close, c.Target, c.MidUpgrade, c.FinishUpgrade, c.CloseIn)
 }
 
 func genC12(rt *rapid.T, gates bool, known bool, col *Collector) ocCase {
@@ -84,6 +88,9 @@ func genC12(rt *rapid.T, gates bool, known bool, col *Collector) ocCase {
 	c.Target = rapid.IntRange(0, n-1).Draw(rt, "target")
 	c.MidUpgrade = rapid.IntRange(0, 4).Draw(rt, "midUpgrade") == 0
 	c.FinishUpgrade = c.MidUpgrade && c.Close == "close" && rapid.Bool().Draw(rt, "finishUpgrade")
+	if c.Close == "close" {
+		c.CloseIn = rapid.SampledFrom([]string{"", "", "", "flush", "drain", "srv.flush", "srv.drain"}).Draw(rt, "closeIn")
+	}
 	return c
 }
 
@@ -246,6 +253,30 @@ func runC12(c ocCase) (fail string, stats map[string]bool) {
 		tgt.cand = cand
 		stats["close-during-upgrade"] = true
 	}
+	// the application's last word and close from inside a listener (armed now, fires during the sends)
+	didCloseIn, closeInDisarmed := false, false
+	if c.CloseIn != "" {
+		lst := func(a ...any) {
+			if didCloseIn || closeInDisarmed {
+				return
+			}
+			if strings.HasPrefix(c.CloseIn, "srv.") {
+				if sock, ok := a[0].(engine.Socket); !ok || sock != tgt.sr.Sock {
+					return
+				}
+			}
+			didCloseIn = true
+			bye := msgT("bye from a " + c.CloseIn + " listener")
+			tgt.sent = append(tgt.sent, bye)
+			w.AppSend(tgt.sr, bye, nil, false, 0)
+			tgt.sr.Sock.Close(false)
+		}
+		if strings.HasPrefix(c.CloseIn, "srv.") {
+			w.Srv.On(types.EventName(strings.TrimPrefix(c.CloseIn, "srv.")), lst)
+		} else {
+			tgt.sr.Sock.On(types.EventName(c.CloseIn), lst)
+		}
+	}
 	// sends (the writer goroutine of gated sessions is held at its first statement)
 	type held struct{ gp GatePoint }
 	var helds []held
@@ -270,8 +301,12 @@ func runC12(c ocCase) (fail string, stats map[string]bool) {
 			} else {
 				p = msgT(fmt.Sprintf("%d:", j) + strings.Repeat("d", s.sp.Sizes[j]))
 			}
-			w.AppSend(s.sr, p, nil, j%2 == 0, 0)
+			if s == tgt && didCloseIn {
+				// the application has closed the session from its listener: it sends nothing more
+				break
+			}
 			s.sent = append(s.sent, p)
+			w.AppSend(s.sr, p, nil, j%2 == 0, 0)
 		}
 		Settle()
 	}
@@ -305,7 +340,14 @@ func runC12(c ocCase) (fail string, stats map[string]bool) {
 	var closing []*ocSess
 	switch c.Close {
 	case "close":
-		tgt.sr.Sock.Close(false)
+		// (a listener that has not fired during the sends stays quiet from now on: the close is called here)
+		closeInDisarmed = true
+		if didCloseIn {
+			stats["last-word-and-close-from-a-listener"] = true
+			stats["last-word-and-close-from-a-"+c.CloseIn+"-listener"] = true
+		} else {
+			tgt.sr.Sock.Close(false)
+		}
 		closing = []*ocSess{tgt}
 		stats["graceful-close"] = true
 	case "closeDiscard":
@@ -601,7 +643,7 @@ func TestC12OrderlyClose(t *testing.T) {
 			}
 		})
 	}
-	req := []string{"upgrade-completed-while-closing", "session-still-closing-at-shutdown", "graceful-close", "discarding-close", "server-close", "http-server-close", "shutdown>=2-sessions", "client-never-polls-again", "close-during-upgrade", "upgraded-session", "carrier.polling", "carrier.websocket", "carrier.webtransport", "close-while-writer-parked"}
+	req := []string{"upgrade-completed-while-closing", "session-still-closing-at-shutdown", "graceful-close", "discarding-close", "server-close", "http-server-close", "shutdown>=2-sessions", "client-never-polls-again", "close-during-upgrade", "upgraded-session", "carrier.polling", "carrier.websocket", "carrier.webtransport", "close-while-writer-parked", "last-word-and-close-from-a-flush-listener", "last-word-and-close-from-a-drain-listener", "last-word-and-close-from-a-srv.flush-listener"}
 	col.RequireClasses(t, req...)
 }
 
@@ -624,6 +666,24 @@ func TestC12CloseLosesBatchFinding(t *testing.T) {
 			}
 			col.Case(c.String(), true, map[string]any{"case": c.String(), "failed_runs_of_5": bad, "result": clipStr(last, 300)}, "send-then-close")
 			demoFinding(t, col, "C12", sigCloseLosesBatch, bad > 0, fmt.Sprintf("%s, %d sends then Close(false): %d of 5 runs lose data: %s", car, k, bad, clipStr(last, 300)))
+		}
+	}
+}
+
+const sigCloseFromFlushListener = "graceful-close-from-a-flush-listener-closes-before-the-buffered-packet-is-sent"
+
+// TestC12CloseFromFlushListenerFinding: deterministic demonstration: a 'flush' listener says a last word and closes
+// gracefully. The drain event Close(false) waited for was that of the batch being handed over, not of the last word.
+func TestC12CloseFromFlushListenerFinding(t *testing.T) {
+	col := NewCollector("TestC12CloseFromFlushListenerFinding", "deterministic: polling / websocket / webtransport session, one Send; inside the flush (drain, server flush) listener of that hand-off the application calls Send(bye) and Close(false); the client keeps reading; oracle of TestC12OrderlyClose: the client receives both messages before the close. every case is non-trivial").Use(t)
+	for _, car := range []string{"polling", "websocket", "webtransport"} {
+		for _, in := range []string{"flush", "srv.flush", "drain"} {
+			c := ocCase{Sess: []ocSessSpec{{Car: car, Rev: 4, K: 1, Sizes: []int{10}, Poll: "pending"}}, Close: "close", CloseIn: in}
+			var fail string
+			res := bubble(t, func() { fail, _ = runC12(c) })
+			res.rethrow()
+			col.Case(c.String(), true, map[string]any{"case": c.String(), "result": clipStr(fail, 300)}, "last-word-and-close-from-a-"+in+"-listener")
+			demoFinding(t, col, "C12", sigCloseFromFlushListener, fail != "", fmt.Sprintf("%s, Send(bye)+Close(false) inside a %s listener: %s", car, in, clipStr(fail, 300)))
 		}
 	}
 }
